@@ -335,3 +335,133 @@ Theorem C04_link_place_multipart_partial :
        (LP.absr ul doff fb 0 (Wr.d_tab (Dl.Multipart.x_dl x')) (Wr.d_file (Dl.Multipart.x_dl x')), true)).
 Proof. exact LC.link_place_multipart. Qed.
 Print Assumptions C04_link_place_multipart_partial.
+
+(* ==================================================================================== *)
+(** * LINK, continued: (c) the copy from the old file, (e) the header fetch *)
+From ZV Require Format.ParseImpl Format.ParseExamples Dl.Copy Dl.CopyProofs Dl.UpdateLinkCopy Dl.UpdateLinkHeader.
+Module LCp := Dl.UpdateLinkCopy.
+Module LH := Dl.UpdateLinkHeader.
+Module Cp := Dl.Copy.
+Module CpP := Dl.CopyProofs.
+Module PI := Format.ParseImpl.
+Module Hd := Format.Header.
+
+(** (c) zck_copy_chunks.  For every source (header [sh], file [sf]) and target (header [th] of
+    B, file [tf], flags [fl]) under the hypotheses of the C08 theorems ([known] checksum
+    types, running-sum offsets of the target index) plus: digests sized like their type
+    ([L.sized], true for parsed headers), every source extent inside the source file
+    ([src_complete]: a truncated source is the documented difference between code and
+    Update.v), and no write behind the end of the target file ([no_gap]: a chunk that is not
+    valid and has a match starts at or before the end of the file):
+    the byte-level copy (Dl/Copy.v: uthash lookup = first source entry with the digest
+    bytes, both sizes compared, copy + re-hash with the stale-buffer loop, zero-fill on
+    mismatch) terminates, and the abstraction of (flags after, file after) is
+    [copy_chunks] applied to the abstraction of the state before, the old file being
+    abstracted to its index entries with the bytes of their extents; the header region is
+    unchanged and the file does not shrink. *)
+Theorem C04_link_copy :
+  forall (H : N -> bytes -> bytes) (sh : Hd.header) (sf : bytes) (th : Hd.header) (fb tf : bytes) (fl : list Z),
+  CpP.known (Hd.h_chash sh) -> CpP.known (Hd.h_chash th) -> L.sized sh -> L.sized th ->
+  Format.ParseProofs.starts_ok 0 (Hd.h_chunks th) -> LCp.src_complete sh sf ->
+  LCp.no_gap sh th (Hd.h_chunks th) fl tf ->
+  exists fl' tf',
+    Cp.copy_chunks H sh sf th tf fl = Some (fl', tf', sf) /\
+    t_slots (L.abs th fb tf' fl') =
+      copy_chunks (L.Hc_of H th) (Some (LCp.abs_old sh sf)) (t_slots (L.abs th fb tf fl)) /\
+    t_hdr (L.abs th fb tf' fl') = t_hdr (L.abs th fb tf fl) /\
+    len tf <= len tf'.
+Proof. exact LCp.link_copy. Qed.
+Print Assumptions C04_link_copy.
+
+(** failed -> missing (zck_reset_failed_chunks: every flag -1 becomes 0) *)
+Theorem C04_link_reset_failed :
+  forall (doff : N) (fb f : bytes) (cs : list Hd.chunk) (fl : list Z),
+  length fl = length cs -> Forall (fun v => v = 0 \/ v = 1 \/ v = -1)%Z fl ->
+  L.abs_slots doff cs fb f (LCp.reset_flags fl) = reset_failed (L.abs_slots doff cs fb f fl).
+Proof. exact LCp.link_reset_failed. Qed.
+Print Assumptions C04_link_reset_failed.
+
+(** (e) header fetch.  The byte-level header reader ([parse_impl], C13) looks at a file only
+    through its first lead + header-size bytes: *)
+Theorem C04_link_parse_prefix :
+  forall (H : N -> bytes -> bytes) (p : PI.pins) (f g : bytes) (h : Hd.header),
+  PI.parse_impl H p f = PI.POk h ->
+  firstn (N.to_nat (Sc.data_offset h)) g = firstn (N.to_nat (Sc.data_offset h)) f ->
+  PI.parse_impl H p g = PI.POk h.
+Proof. exact LH.parse_impl_prefix. Qed.
+Print Assumptions C04_link_parse_prefix.
+
+(** ... and for every file B the reader accepts with header record [h]: the fetch of the
+    chunk-level procedure is [dl_header_fetch] for [h]'s lead and header size (C04_header_fetch:
+    probe 0-88, then 89 .. header end); the requested ranges of B, concatenated, are the
+    prefix of B of length max(probe, lead + header size); the reader accepts these bytes
+    followed by anything - and every target file that starts with B's first lead + header
+    bytes - with the same record [h]; the header bytes of the abstraction of B are exactly
+    lead + header, and the chunk table of the abstraction of such a target is [h]'s index. *)
+Theorem C04_link_header_fetch :
+  forall (H : N -> bytes -> bytes) (p : PI.pins) (fb : bytes) (h : Hd.header),
+  PI.parse_impl H p fb = PI.POk h ->
+  header_fetch_of (L.abs_new h fb) = dl_header_fetch true (Hd.h_lead h) (Hd.h_hlen h) /\
+  LH.fetched fb h = firstn (N.to_nat (N.max min_download (Sc.data_offset h))) fb /\
+  len (b_hdr (L.abs_new h fb)) = Sc.data_offset h /\
+  (forall rest, PI.parse_impl H p (LH.fetched fb h ++ rest) = PI.POk h) /\
+  (forall tf, firstn (N.to_nat (Sc.data_offset h)) tf = firstn (N.to_nat (Sc.data_offset h)) fb ->
+              PI.parse_impl H p tf = PI.POk h /\
+              forall fl, map s_chunk (t_slots (L.abs h fb tf fl)) = map L.uchunk (Hd.h_chunks h)).
+Proof. exact LH.link_header_fetch. Qed.
+Print Assumptions C04_link_header_fetch.
+
+(** Non-vacuity of (c): toy hash of the header examples (16-byte digests for type 3), a source
+    with chunks abc | de, a target index de | xyz | abc whose file has content everywhere;
+    flags: dictionary and xyz valid.  The hypotheses hold and both sides give: de and abc
+    copied and valid. *)
+Definition lx_d (m : bytes) : bytes := Format.ParseExamples.toyH 3 m.
+Definition lx_z16 : bytes := repeat 0 16%nat.
+Definition lx_sh : Hd.header :=
+  Hd.mkHeader false 3 10 20 lx_z16 lx_z16 0 0 3 3
+    [Hd.mkChunk lx_z16 None 0 0 0; Hd.mkChunk (lx_d [97;98;99]) None 3 3 0; Hd.mkChunk (lx_d [100;101]) None 2 2 3] 0 0.
+Definition lx_th : Hd.header :=
+  Hd.mkHeader false 3 12 20 lx_z16 lx_z16 0 0 3 4
+    [Hd.mkChunk lx_z16 None 0 0 0; Hd.mkChunk (lx_d [100;101]) None 2 2 0; Hd.mkChunk (lx_d [120;121;122]) None 3 3 2;
+     Hd.mkChunk (lx_d [97;98;99]) None 3 3 5] 0 0.
+Definition lx_sf : bytes := repeat 7 30%nat ++ [97;98;99] ++ [100;101].
+Definition lx_tf : bytes := repeat 8 32%nat ++ [1;2;3;4;5;6;7;8;9;10].
+Definition lx_fl : list Z := [1; 0; 1; 0]%Z.
+
+Example C04_ex_link_copy_hyps :
+  CpP.known (Hd.h_chash lx_sh) /\ CpP.known (Hd.h_chash lx_th) /\ L.sized lx_sh /\ L.sized lx_th /\
+  Format.ParseProofs.starts_ok 0 (Hd.h_chunks lx_th) /\ LCp.src_complete lx_sh lx_sf /\
+  LCp.no_gap lx_sh lx_th (Hd.h_chunks lx_th) lx_fl lx_tf.
+Proof.
+  split; [discriminate|]. split; [discriminate|].
+  split; [split; [repeat constructor|reflexivity]|].
+  split; [split; [repeat constructor|reflexivity]|].
+  split; [cbn; repeat split; reflexivity|].
+  split; [repeat constructor; vm_compute; discriminate|].
+  intros i tc Hn _. unfold Cp.ext_lo.
+  destruct i as [|[|[|[|i]]]]; cbn in Hn; try (destruct i; discriminate Hn);
+    inversion Hn; subst; apply N.leb_le; vm_compute; reflexivity.
+Qed.
+
+Example C04_ex_link_copy :
+  Cp.copy_chunks Format.ParseExamples.toyH lx_sh lx_sf lx_th lx_tf lx_fl =
+    Some ([1; 1; 1; 1]%Z, repeat 8 32%nat ++ [100;101] ++ [3;4;5] ++ [97;98;99] ++ [9;10], lx_sf) /\
+  map s_flag (copy_chunks (L.Hc_of Format.ParseExamples.toyH lx_th) (Some (LCp.abs_old lx_sh lx_sf))
+                (t_slots (L.abs lx_th [] lx_tf lx_fl))) = [Valid; Valid; Valid; Valid] /\
+  map s_cur (copy_chunks (L.Hc_of Format.ParseExamples.toyH lx_th) (Some (LCp.abs_old lx_sh lx_sf))
+               (t_slots (L.abs lx_th [] lx_tf lx_fl))) = [[]; [100;101]; [3;4;5]; [97;98;99]].
+Proof. vm_compute. repeat split; reflexivity. Qed.
+
+(** Non-vacuity of (e): the sealed example file of C13 is accepted; so is its fetched prefix
+    followed by arbitrary bytes *)
+Example C04_ex_link_header_fetch :
+  PI.parse_impl Format.ParseExamples.toyH PI.no_pins Format.ParseExamples.ex1_file = PI.POk Format.ParseExamples.ex1_header /\
+  PI.parse_impl Format.ParseExamples.toyH PI.no_pins
+    (LH.fetched Format.ParseExamples.ex1_file Format.ParseExamples.ex1_header ++ [1; 2; 3]) =
+    PI.POk Format.ParseExamples.ex1_header.
+Proof.
+  assert (E : PI.parse_impl Format.ParseExamples.toyH PI.no_pins Format.ParseExamples.ex1_file =
+              PI.POk Format.ParseExamples.ex1_header) by (vm_compute; reflexivity).
+  split; [exact E|].
+  exact (proj1 (proj2 (proj2 (proj2 (C04_link_header_fetch _ _ _ _ E)))) [1; 2; 3]).
+Qed.
